@@ -341,7 +341,7 @@ Qed.
 Lemma reset_rejects s map hop :
   length map = 5 -> ~ hop_ok hop \/ num_used map < 2 ->
   exists h, reset_impl s map hop = (mk (tbl s) h (dead s), OBool false) /\
-    (~ hop_ok hop -> h = hop_ s).
+    (~ hop_ok hop -> h = hop_ s) /\ (hop_ok hop -> h = hop).
 Proof.
   intros Lm Hbad. unfold reset_impl. rewrite hop_check.
   destruct (valid_hop hop) eqn:V; cbn [negb].
@@ -349,8 +349,10 @@ Proof.
     unfold max_number_of_data_channels.
     destruct (build_used_37 map Lm) as (used & -> & _).
     destruct (Nat.ltb_spec (num_used map) 2); [|lia].
-    eexists. split; [reflexivity|tauto].
-  - exists (hop_ s). destruct s; auto.
+    exists (hop mod 256)%N. split; [reflexivity|]. split; [tauto|].
+    intros _. apply N.mod_small. unfold hop_ok in V. lia.
+  - exists (hop_ s). split; [destruct s; reflexivity|]. split; [reflexivity|].
+    intros H. apply valid_hop_iff in H. congruence.
 Qed.
 
 Lemma reset_result s map hop :
@@ -362,19 +364,410 @@ Lemma reset_result s map hop :
 Proof.
   intros Lm Lt.
   destruct (valid_hop hop) eqn:V.
-  - destruct (valid_map map) eqn:M; unfold valid_map in M.
+  - pose proof (proj1 (valid_hop_iff hop) V) as Hh.
+    destruct (valid_map map) eqn:M; unfold valid_map in M.
     + apply Nat.leb_le in M.
-      destruct (reset_accepts s map hop Lm (proj1 (valid_hop_iff hop) V) M Lt) as (t & -> & ->).
-      cbn [andb tbl hop_ dead]. rewrite csa1_table_length. auto.
+      destruct (reset_accepts s map hop Lm Hh M Lt) as (t & -> & ->).
+      cbn [andb tbl hop_ dead]. rewrite csa1_table_length.
+      split; [reflexivity|]. split; [reflexivity|]. split; [reflexivity|]. split; reflexivity.
     + apply Nat.leb_gt in M.
-      destruct (reset_rejects s map hop Lm (or_intror M)) as (h & E & _).
-      pose proof E as E'. unfold reset_impl in E'. rewrite hop_check, V in E'. cbn [negb] in E'.
-      unfold max_number_of_data_channels in E'.
-      destruct (build_used_37 map Lm) as (used & Eb & _). rewrite Eb in E'.
-      destruct (Nat.ltb_spec (num_used map) 2); [|lia].
-      rewrite E. cbn [andb tbl hop_ dead]. inversion E'. repeat split; auto.
-      apply valid_hop_iff in V. unfold hop_ok in V. apply N.mod_small. lia.
+      destruct (reset_rejects s map hop Lm (or_intror M)) as (h & -> & _ & Hhop).
+      cbn [andb tbl hop_ dead].
+      split; [reflexivity|]. split; [reflexivity|]. split; [exact Lt|]. split; [exact (Hhop Hh)|reflexivity].
   - assert (Hn : ~ hop_ok hop) by (rewrite <- valid_hop_iff, V; discriminate).
-    destruct (reset_rejects s map hop Lm (or_introl Hn)) as (h & -> & Hh).
-    cbn [andb tbl hop_ dead]. rewrite (Hh Hn). auto.
+    destruct (reset_rejects s map hop Lm (or_introl Hn)) as (h & -> & Hh & _).
+    cbn [andb tbl hop_ dead].
+    split; [reflexivity|]. split; [reflexivity|]. split; [exact Lt|]. split; [exact (Hh Hn)|reflexivity].
+Qed.
+
+(* ------------------------------------------------------------------ headline statements about reset / data_channel *)
+Definition wf_state (s : state) : Prop := dead s = false /\ length (tbl s) = 37.
+
+Lemma init_wf : wf_state init.
+Proof. split; reflexivity. Qed.
+
+(* for EVERY map, hop and event number: the channel after an accepted reset is CSA#1's *)
+Theorem data_channel_is_csa1 (s : state) (map : list N) (hop : N) (k : nat) :
+  wf_state s -> length map = 5 -> hop_ok hop -> 2 <= num_used map ->
+  let '(s', r) := step s (Reset map hop) in
+  r = OBool true /\ wf_state s' /\
+  snd (step s' (Chan (k mod 37))) = OChan (N.of_nat (csa1 map (N.to_nat hop) k)).
+Proof.
+  intros [D L] Lm Hh Hn. unfold step. rewrite D.
+  destruct (reset_accepts s map hop Lm Hh Hn L) as (t & -> & ->).
+  split; [reflexivity|]. split.
+  - split; [exact D|apply csa1_table_length].
+  - cbn [dead tbl]. rewrite D. unfold max_number_of_data_channels.
+    assert (Hk : k mod 37 < 37) by (apply Nat.mod_upper_bound; lia).
+    destruct (Nat.ltb_spec (k mod 37) 37); [|lia].
+    cbn [snd]. rewrite csa1_table_nth by exact Hk. rewrite csa1_period. reflexivity.
+Qed.
+
+(* the same for reset( map ) with the stored hop *)
+Theorem remap_is_csa1 (s : state) (map : list N) (k : nat) :
+  wf_state s -> length map = 5 -> hop_ok (hop_ s) -> 2 <= num_used map ->
+  let '(s', r) := step s (Remap map) in
+  r = OBool true /\ wf_state s' /\ hop_ s' = hop_ s /\
+  snd (step s' (Chan (k mod 37))) = OChan (N.of_nat (csa1 map (N.to_nat (hop_ s)) k)).
+Proof.
+  intros [D L] Lm Hh Hn. unfold step. rewrite D.
+  destruct (reset_accepts s map (hop_ s) Lm Hh Hn L) as (t & -> & ->).
+  split; [reflexivity|]. split; [|split].
+  - split; [exact D|apply csa1_table_length].
+  - reflexivity.
+  - cbn [dead tbl]. rewrite D. unfold max_number_of_data_channels.
+    assert (Hk : k mod 37 < 37) by (apply Nat.mod_upper_bound; lia).
+    destruct (Nat.ltb_spec (k mod 37) 37); [|lia].
+    cbn [snd]. rewrite csa1_table_nth by exact Hk. rewrite csa1_period. reflexivity.
+Qed.
+
+(* a hop outside 5..16 or fewer than two used channels: false, table untouched *)
+Theorem reset_rejected_unchanged (s : state) (map : list N) (hop : N) :
+  wf_state s -> length map = 5 -> ~ hop_ok hop \/ num_used map < 2 ->
+  let '(s', r) := step s (Reset map hop) in
+  r = OBool false /\ tbl s' = tbl s /\ wf_state s' /\
+  forall i, snd (step s' (Chan i)) = snd (step s (Chan i)).
+Proof.
+  intros [D L] Lm Hbad. unfold step. rewrite D.
+  destruct (reset_rejects s map hop Lm Hbad) as (h & -> & _).
+  cbn [tbl dead]. rewrite D. split; [reflexivity|]. split; [reflexivity|]. split; [split; [reflexivity|exact L]|]. intros i. destruct (i <? max_number_of_data_channels); reflexivity.
+Qed.
+
+Theorem remap_rejected_unchanged (s : state) (map : list N) :
+  wf_state s -> length map = 5 -> ~ hop_ok (hop_ s) \/ num_used map < 2 ->
+  fst (step s (Remap map)) = s /\ snd (step s (Remap map)) = OBool false.
+Proof.
+  intros [D L] Lm Hbad. unfold step. rewrite D.
+  pose proof (reset_result s map (hop_ s) Lm L) as R.
+  destruct (reset_impl s map (hop_ s)) as [s' r]. destruct R as (-> & Hd & _ & Hh & Ht).
+  assert (V : valid_hop (hop_ s) && valid_map map = false).
+  { destruct Hbad as [Hb|Hb].
+    - destruct (valid_hop (hop_ s)) eqn:V; [apply valid_hop_iff in V; tauto|reflexivity].
+    - unfold valid_map. destruct (Nat.leb_spec 2 (num_used map)); [lia|apply andb_false_r]. }
+  rewrite V in *. cbn [fst snd]. split; [|reflexivity].
+  destruct s' as [t' h' d'], s as [t h d]. cbn [tbl hop_ dead] in *.
+  subst. destruct (valid_hop h); reflexivity.
+Qed.
+
+(* the bits 37..39 of the map are ignored *)
+Theorem high_bits_ignored (s : state) (m1 m2 : list N) (hop : N) :
+  wf_state s -> length m1 = 5 -> length m2 = 5 ->
+  (forall c, c < 37 -> used_bit m1 c = used_bit m2 c) ->
+  step s (Reset m1 hop) = step s (Reset m2 hop).
+Proof.
+  intros [D L] L1 L2 H. unfold step. rewrite D.
+  pose proof (reset_result s m1 hop L1 L) as R1. pose proof (reset_result s m2 hop L2 L) as R2.
+  destruct (reset_impl s m1 hop) as [s1 r1], (reset_impl s m2 hop) as [s2 r2].
+  destruct R1 as (-> & D1 & _ & H1 & T1), R2 as (-> & D2 & _ & H2 & T2).
+  assert (Ev : valid_map m1 = valid_map m2)
+    by (unfold valid_map; rewrite !num_used_def, (used_list_ext m1 m2 H); reflexivity).
+  assert (Et : csa1_table m1 (N.to_nat hop) = csa1_table m2 (N.to_nat hop)).
+  { apply nth_ext_len with (d := 0%N); [rewrite !csa1_table_length; reflexivity|].
+    intros i Hi. rewrite csa1_table_length in Hi. rewrite !csa1_table_nth by exact Hi.
+    f_equal. apply csa1_ext, H. }
+  rewrite Ev in *. rewrite Et in *.
+  destruct s1 as [t1 h1 d1], s2 as [t2 h2 d2]. cbn [tbl hop_ dead] in *. subst. reflexivity.
+Qed.
+
+(* ------------------------------------------------------------------ the monitor accepts every run of the model *)
+Definition seen_ok (t : list N) (seen : list (option N)) : Prop :=
+  forall i c, nth i seen None = Some c -> nth i t 0%N = c.
+
+Definition tbl_ok (t : list N) (e : option (list N)) (seen : list (option N)) : Prop :=
+  match e with Some x => t = x | None => seen_ok t seen end.
+
+Record Inv (s : state) (m : mon) : Prop := mkInv {
+  inv_dead : dead s = m_dead m;
+  inv_len : length (tbl s) = 37;
+  inv_hop : hop_ s = match m_hop m with Some h => N.of_nat h | None => 0%N end;
+  inv_hop_ok : forall h, m_hop m = Some h -> 5 <= h <= 16;
+  inv_tbl : tbl_ok (tbl s) (m_exp m) (m_seen m) }.
+
+Lemma nth_repeat_default (A : Type) (x : A) n i : nth i (repeat x n) x = x.
+Proof. revert i; induction n as [|n IH]; intros [|i]; simpl; auto. Qed.
+
+Lemma seen_ok_empty t : seen_ok t (repeat None 37).
+Proof. intros i c H. rewrite nth_repeat_default in H. discriminate. Qed.
+
+Lemma Inv_init : Inv init minit.
+Proof.
+  constructor; try reflexivity.
+  - intros h H. discriminate.
+  - apply seen_ok_empty.
+Qed.
+
+Lemma check_entry_model t e hp seen rj dd i :
+  i < 37 -> length t = 37 -> tbl_ok t e seen ->
+  exists seen', check_entry (mkm e hp seen rj dd) i (nth i t 0%N) = (Ok, mkm e hp seen' rj dd) /\
+    tbl_ok t e seen'.
+Proof.
+  intros Hi Hl Hok. unfold check_entry. cbn [m_exp m_seen m_hop m_rej m_dead].
+  destruct e as [x|].
+  - cbn [tbl_ok] in Hok. subst x.
+    rewrite (nth_indep t poison 0%N) by lia. rewrite N.eqb_refl. exists seen. split; [reflexivity|reflexivity].
+  - cbn [tbl_ok] in *. destruct (nth i seen None) as [c'|] eqn:Es.
+    + rewrite (Hok i c' Es), N.eqb_refl. exists seen. auto.
+    + eexists. split; [reflexivity|].
+      intros j c Hj. destruct (Nat.lt_ge_cases i (length seen)) as [Hlt|Hge].
+      * destruct (Nat.eq_dec j i) as [->|Hne].
+        -- rewrite nth_upd_eq in Hj by exact Hlt. inversion Hj. reflexivity.
+        -- rewrite nth_upd_neq in Hj by lia. apply Hok. exact Hj.
+      * rewrite upd_out in Hj by exact Hge. apply Hok. exact Hj.
+Qed.
+
+Lemma check_all_model t e hp rj dd : forall l i seen,
+  i + length l = 37 -> length t = 37 ->
+  (forall j, j < length l -> nth j l 0%N = nth (i + j) t 0%N) ->
+  tbl_ok t e seen ->
+  exists seen', check_all (mkm e hp seen rj dd) i l = (Ok, mkm e hp seen' rj dd) /\ tbl_ok t e seen'.
+Proof.
+  induction l as [|c l IH]; intros i seen Hi Hl Hnth Hok.
+  - exists seen. split; [reflexivity|exact Hok].
+  - cbn [check_all]. cbn [length] in Hi.
+    assert (Hc : c = nth i t 0%N).
+    { specialize (Hnth 0 ltac:(cbn [length]; lia)). cbn [nth] in Hnth. rewrite Nat.add_0_r in Hnth. exact Hnth. }
+    subst c.
+    destruct (check_entry_model t e hp seen rj dd i ltac:(lia) Hl Hok) as (seen1 & -> & Hok1).
+    apply IH; auto; try lia.
+    intros j Hj. specialize (Hnth (S j) ltac:(cbn [length]; lia)). cbn [nth] in Hnth.
+    rewrite Hnth. f_equal. lia.
+Qed.
+
+Lemma eqb_refl_neg b : negb (Bool.eqb b b) = false.
+Proof. destruct b; reflexivity. Qed.
+
+Lemma step_accepted s m o :
+  Inv s m -> wf_op o ->
+  let '(s', r) := step s o in exists m', mstep m o r = (Ok, m') /\ Inv s' m'.
+Proof.
+  intros [Hd Hl Hh Hhok Ht] Hwf. unfold step, mstep.
+  destruct (dead s) eqn:D; rewrite <- Hd.
+  { exists m. split; [reflexivity|]. apply mkInv; [congruence|exact Hl|exact Hh|exact Hhok|exact Ht]. }
+  destruct m as [e hp seen rj dd]. cbn [m_exp m_hop m_seen m_rej m_dead] in *. subst dd.
+  destruct o as [map hop|map|i|]; cbn [wf_op] in Hwf.
+  - (* reset( map, hop ) *)
+    pose proof (reset_result s map hop Hwf Hl) as R.
+    destruct (reset_impl s map hop) as [s' r]. destruct R as (-> & Hd' & Hl' & Hh' & Ht').
+    unfold m_reset. cbn [m_exp m_hop m_seen m_rej m_dead].
+    destruct (valid_hop hop) eqn:V.
+    + assert (Hr : 5 <= N.to_nat hop <= 16) by (apply valid_hop_iff in V; unfold hop_ok in V; lia).
+      cbn [andb] in *. rewrite eqb_refl_neg. destruct (valid_map map) eqn:M.
+      * eexists. split; [reflexivity|]. apply mkInv; cbn [m_exp m_hop m_seen m_rej m_dead].
+        -- rewrite Hd'. exact D.
+        -- exact Hl'.
+        -- rewrite Hh'. symmetry. apply N2Nat.id.
+        -- intros h Eh. inversion Eh. subst h. exact Hr.
+        -- exact Ht'.
+      * eexists. split; [reflexivity|]. apply mkInv; cbn [m_exp m_hop m_seen m_rej m_dead].
+        -- rewrite Hd'. exact D.
+        -- exact Hl'.
+        -- rewrite Hh'. symmetry. apply N2Nat.id.
+        -- intros h Eh. inversion Eh. subst h. exact Hr.
+        -- rewrite Ht'. exact Ht.
+    + cbn [andb Bool.eqb negb] in *. eexists. split; [reflexivity|].
+      apply mkInv; cbn [m_exp m_hop m_seen m_rej m_dead].
+      * rewrite Hd'. exact D.
+      * exact Hl'.
+      * rewrite Hh'. exact Hh.
+      * exact Hhok.
+      * rewrite Ht'. exact Ht.
+  - (* reset( map ) *)
+    pose proof (reset_result s map (hop_ s) Hwf Hl) as R.
+    destruct (reset_impl s map (hop_ s)) as [s' r]. destruct R as (-> & Hd' & Hl' & Hh' & Ht').
+    unfold m_reset. cbn [m_exp m_hop m_seen m_rej m_dead].
+    assert (Hsame : hop_ s' = hop_ s) by (rewrite Hh'; destruct (valid_hop (hop_ s)); reflexivity).
+    destruct hp as [h|].
+    + assert (V : valid_hop (hop_ s) = true).
+      { apply valid_hop_iff. rewrite Hh. specialize (Hhok h eq_refl). unfold hop_ok. lia. }
+      rewrite V in *. cbn [andb] in *. rewrite eqb_refl_neg.
+      destruct (valid_map map) eqn:M.
+      * eexists. split; [reflexivity|]. apply mkInv; cbn [m_exp m_hop m_seen m_rej m_dead].
+        -- rewrite Hd'. exact D.
+        -- exact Hl'.
+        -- rewrite Hsame. exact Hh.
+        -- exact Hhok.
+        -- rewrite Ht', Hh, Nat2N.id. reflexivity.
+      * eexists. split; [reflexivity|]. apply mkInv; cbn [m_exp m_hop m_seen m_rej m_dead].
+        -- rewrite Hd'. exact D.
+        -- exact Hl'.
+        -- rewrite Hsame. exact Hh.
+        -- exact Hhok.
+        -- rewrite Ht'. exact Ht.
+    + assert (V : valid_hop (hop_ s) = false) by (rewrite Hh; reflexivity).
+      rewrite V in *. cbn [andb Bool.eqb negb] in *.
+      eexists. split; [reflexivity|]. apply mkInv; cbn [m_exp m_hop m_seen m_rej m_dead].
+      * rewrite Hd'. exact D.
+      * exact Hl'.
+      * rewrite Hsame. exact Hh.
+      * exact Hhok.
+      * rewrite Ht'. exact Ht.
+  - (* data_channel( i ) *)
+    unfold max_number_of_data_channels. destruct (Nat.ltb_spec i 37) as [Hi|Hi].
+    + destruct (check_entry_model (tbl s) e hp seen rj false i Hi Hl Ht) as (seen' & -> & Hok).
+      eexists. split; [reflexivity|]. apply mkInv; [exact D|exact Hl|exact Hh|exact Hhok|exact Hok].
+    + unfold fault. eexists. split; [reflexivity|]. apply mkInv; [reflexivity|exact Hl|exact Hh|exact Hhok|exact Ht].
+  - (* dump *)
+    rewrite Hl. replace (37 =? 37) with true by reflexivity.
+    destruct (check_all_model (tbl s) e hp rj false (tbl s) 0 seen) as (seen' & E & Hok);
+      [rewrite Hl; reflexivity|exact Hl|intros j Hj; reflexivity|exact Ht|].
+    rewrite E.
+    eexists. split; [reflexivity|]. apply mkInv; [exact D|exact Hl|exact Hh|exact Hhok|exact Hok].
+Qed.
+
+Lemma monitor_from_accepts : forall ops s m pos,
+  Inv s m -> Forall wf_op ops -> monitor_from m pos (run s ops) = None.
+Proof.
+  induction ops as [|o ops IH]; intros s m pos HI Hwf; [reflexivity|].
+  inversion Hwf as [|? ? Ho Hops]; subst.
+  cbn [run]. pose proof (step_accepted s m o HI Ho) as H.
+  destruct (step s o) as [s' r]. destruct H as (m' & E & HI').
+  cbn [monitor_from]. rewrite E. apply IH; auto.
+Qed.
+
+(* every run of the model, of any length, over any maps and hops, satisfies every monitor clause *)
+Theorem monitor_accepts_model (ops : list op) :
+  Forall wf_op ops -> monitor (run init ops) = None.
+Proof. intros H. apply monitor_from_accepts; [exact Inv_init|exact H]. Qed.
+
+(* and no run faults unless data_channel() is called with an index >= 37 *)
+Definition in_range_op (o : op) : Prop := match o with Chan i => i < 37 | _ => True end.
+
+Theorem model_never_faults : forall ops s,
+  wf_state s -> Forall wf_op ops -> Forall in_range_op ops ->
+  wf_state (final s ops) /\ Forall (fun x => snd x <> OFault /\ snd x <> OSkipped) (run s ops).
+Proof.
+  induction ops as [|o ops IH]; intros s Hs Hwf Hin; [split; [exact Hs|constructor]|].
+  inversion Hwf as [|? ? Ho Hops]; inversion Hin as [|? ? Hio Hiops]; subst.
+  cbn [final run].
+  assert (Hstep : wf_state (fst (step s o)) /\ snd (step s o) <> OFault /\ snd (step s o) <> OSkipped).
+  { destruct Hs as [D L]. unfold step. rewrite D.
+    destruct o as [map hop|map|i|]; cbn [wf_op in_range_op] in *.
+    - pose proof (reset_result s map hop Ho L) as R. destruct (reset_impl s map hop) as [s' r].
+      destruct R as (-> & D' & L' & _). cbn [fst snd]. repeat split; try congruence.
+    - pose proof (reset_result s map (hop_ s) Ho L) as R. destruct (reset_impl s map (hop_ s)) as [s' r].
+      destruct R as (-> & D' & L' & _). cbn [fst snd]. repeat split; try congruence.
+    - unfold max_number_of_data_channels. destruct (Nat.ltb_spec i 37); [|lia].
+      cbn [fst snd]. repeat split; auto; discriminate.
+    - cbn [fst snd]. repeat split; auto; discriminate. }
+  destruct (step s o) as [s' r]. cbn [fst snd] in Hstep. destruct Hstep as (Hs' & Hr1 & Hr2).
+  destruct (IH s' Hs' Hops Hiops) as (Hf & Hrun). split; [exact Hf|].
+  constructor; [cbn [snd]; auto|exact Hrun].
+Qed.
+
+(* ------------------------------------------------------------------ the link layer's decisions *)
+Definition ll_wf_op (o : ll_op) : Prop :=
+  match o with
+  | ConnectInd map _ _ | ChannelMapInd map => length map = 5
+  | _ => True
+  end.
+
+Definition ll_inv (l : ll) (g : option ghost) : Prop :=
+  wf_state (chan l) /\
+  match g with
+  | None => phase l = Advertising
+  | Some g =>
+      phase l = Connected /\
+      tbl (chan l) = csa1_table (g_map g) (g_hop g) /\
+      hop_ (chan l) = N.of_nat (g_hop g) /\ 5 <= g_hop g <= 16 /\ 2 <= num_used (g_map g) /\
+      channel_index l = g_elapsed g mod 37
+  end.
+
+Lemma ll_step_inv l g o : ll_inv l g -> ll_wf_op o -> ll_inv (ll_step l o) (ghost_step g o).
+Proof.
+  intros [[D L] H] Hwf. unfold ll_step, ghost_step.
+  destruct o as [map b33 tok|map|d|]; cbn [ll_wf_op] in Hwf.
+  - (* CONNECT_IND *)
+    destruct g as [g|].
+    + destruct H as (Hp & H). rewrite Hp. split; [split; assumption|]. split; [exact Hp|exact H].
+    + rewrite H.
+      pose proof (reset_result (chan l) map (N.land b33 31) Hwf L) as R.
+      destruct (reset_impl (chan l) map (N.land b33 31)) as [c r].
+      destruct R as (-> & D' & L' & Hh' & Ht').
+      assert (Hc : wf_state c) by (split; [rewrite D'; exact D|exact L']).
+      unfold ll_accepts, is_true_out.
+      destruct (valid_hop (N.land b33 31)) eqn:V; cbn [andb] in *.
+      * destruct (valid_map map) eqn:M; cbn [andb].
+        -- destruct tok.
+           ++ split; [exact Hc|].
+              cbn [phase chan channel_index g_map g_hop g_elapsed].
+              apply valid_hop_iff in V. unfold hop_ok in V. unfold valid_map in M. apply Nat.leb_le in M.
+              split; [reflexivity|]. split; [exact Ht'|]. split; [rewrite Hh'; symmetry; apply N2Nat.id|].
+              split; [lia|]. split; [exact M|reflexivity].
+           ++ split; [exact Hc|reflexivity].
+        -- split; [exact Hc|reflexivity].
+      * split; [exact Hc|reflexivity].
+  - (* LL_CHANNEL_MAP_IND at its instant *)
+    destruct g as [g|].
+    + destruct H as (Hp & Ht & Hh & Hr & Hn & Hi). rewrite Hp.
+      pose proof (reset_result (chan l) map (hop_ (chan l)) Hwf L) as R.
+      destruct (reset_impl (chan l) map (hop_ (chan l))) as [c r].
+      destruct R as (_ & D' & L' & Hh' & Ht').
+      assert (V : valid_hop (hop_ (chan l)) = true) by (apply valid_hop_iff; rewrite Hh; unfold hop_ok; lia).
+      rewrite V in *. cbn [andb] in *.
+      split; [split; [rewrite D'; exact D|exact L']|].
+      cbn [phase chan channel_index g_map g_hop g_elapsed].
+      split; [reflexivity|]. split; [|split; [rewrite Hh'; exact Hh|split; [exact Hr|split; [|exact Hi]]]].
+      * rewrite Ht'. destruct (valid_map map); [rewrite Hh, Nat2N.id; reflexivity|exact Ht].
+      * destruct (valid_map map) eqn:M; [unfold valid_map in M; apply Nat.leb_le in M; exact M|exact Hn].
+    + rewrite H. split; [split; assumption|exact H].
+  - (* next planned event *)
+    destruct g as [g|].
+    + destruct H as (Hp & Ht & Hh & Hr & Hn & Hi). rewrite Hp.
+      split; [split; assumption|]. cbn [phase chan channel_index g_map g_hop g_elapsed].
+      split; [reflexivity|]. split; [exact Ht|]. split; [exact Hh|]. split; [exact Hr|]. split; [exact Hn|].
+      unfold max_number_of_data_channels. rewrite Hi. apply Nat.add_mod_idemp_l. lia.
+    + rewrite H. split; [split; assumption|exact H].
+  - destruct g as [g|].
+    + destruct H as (Hp & _). rewrite Hp. split; [split; assumption|reflexivity].
+    + rewrite H. split; [split; assumption|exact H].
+Qed.
+
+Theorem ll_invariant : forall ops l g,
+  ll_inv l g -> Forall ll_wf_op ops -> ll_inv (ll_run l ops) (ghost_run g ops).
+Proof.
+  induction ops as [|o ops IH]; intros l g HI Hwf; [exact HI|].
+  inversion Hwf; subst. cbn [ll_run ghost_run]. apply IH; auto. apply ll_step_inv; auto.
+Qed.
+
+Lemma ll_inv_init : ll_inv ll_init None.
+Proof. split; [exact init_wf|reflexivity]. Qed.
+
+(* whenever a connection exists, the channel handed to the radio for the next planned event is the
+   CSA#1 channel of the map and hop in force for the number of events elapsed since CONNECT_IND *)
+Theorem ll_channel_is_csa1 (ops : list ll_op) (g : ghost) :
+  Forall ll_wf_op ops -> ghost_run None ops = Some g ->
+  ll_data_channel (ll_run ll_init ops) = N.of_nat (csa1 (g_map g) (g_hop g) (g_elapsed g)).
+Proof.
+  intros Hwf Hg. pose proof (ll_invariant ops ll_init None ll_inv_init Hwf) as [_ H].
+  rewrite Hg in H. destruct H as (_ & Ht & _ & _ & _ & Hi).
+  unfold ll_data_channel. rewrite Ht, Hi.
+  rewrite csa1_table_nth by (apply Nat.mod_upper_bound; lia). rewrite csa1_period. reflexivity.
+Qed.
+
+(* a connect request with an invalid hop or map is ignored: still advertising, table untouched *)
+Theorem ll_connect_ind_invalid_ignored (l : ll) (map : list N) (b33 : N) (tok : bool) :
+  wf_state (chan l) -> phase l = Advertising -> length map = 5 ->
+  valid_hop (N.land b33 31) && valid_map map = false ->
+  let l' := ll_step l (ConnectInd map b33 tok) in
+  phase l' = Advertising /\ tbl (chan l') = tbl (chan l) /\ channel_index l' = channel_index l.
+Proof.
+  intros [D L] Hp Lm Hbad. unfold ll_step. rewrite Hp.
+  pose proof (reset_result (chan l) map (N.land b33 31) Lm L) as R.
+  destruct (reset_impl (chan l) map (N.land b33 31)) as [c r].
+  destruct R as (-> & _ & _ & _ & Ht). rewrite Hbad in *. cbn [is_true_out andb].
+  cbn [phase chan channel_index]. auto.
+Qed.
+
+(* a channel map indication with fewer than two used channels changes nothing at all *)
+Theorem ll_channel_map_ind_invalid_ignored (l : ll) (map : list N) :
+  wf_state (chan l) -> phase l = Connected -> length map = 5 -> valid_map map = false ->
+  ll_step l (ChannelMapInd map) = l.
+Proof.
+  intros Hs Hp Lm Hbad. unfold ll_step. rewrite Hp.
+  assert (Hb : ~ hop_ok (hop_ (chan l)) \/ num_used map < 2).
+  { right. unfold valid_map in Hbad. apply Nat.leb_gt in Hbad. exact Hbad. }
+  pose proof (remap_rejected_unchanged (chan l) map Hs Lm Hb) as [E _].
+  unfold step in E. destruct Hs as [D _]. rewrite D in E.
+  destruct (reset_impl (chan l) map (hop_ (chan l))) as [c r]. cbn [fst] in E. subst c.
+  destruct l as [p c i]. cbn [phase chan channel_index] in *. subst p. reflexivity.
 Qed.
